@@ -460,6 +460,26 @@ def run_curvsym(spec, res):
                 C + np.einsum('abcd...->bacd...', C), z4, 1e-12, scale=sc)
     check_close(res, 'Weyl(E/B) antisym 2nd pair', tags,
                 C + np.einsum('abcd...->abdc...', C), z4, 1e-12, scale=sc)
+    # ---- kinematic decomposition for a fluid moving through the slices: the
+    # shear is trace-free with respect to the projector orthogonal to u (exact by
+    # construction once u.u = -1), symmetric; the vorticity antisymmetric
+    v = np.array([0.30 * np.sin(np.pi * x) * np.cos(np.pi * y), 0.20 * np.cos(np.pi * z) + 0.1,
+                  -0.25 * np.sin(np.pi * (x + y))]) / (1.0 + np.sqrt(np.abs(ex['gammadown3']).max()))
+    Wl = 1 / np.sqrt(1 - np.einsum('i...,j...,ij...->...', v, v, ex['gammadown3']))
+    inpk = dict(inp, velx=v[0], vely=v[1], velz=v[2], w_lorentz=Wl)
+    relk = harness.make_rel(fd, inpk, clear_cache_every_nbr_calc=10**9, memory_threshold_inGB=1e9)
+    with common.Quiet():
+        sig = np.array(relk['sheardown4'])
+        om = np.array(relk['omegadown4'])
+        hu = np.array(relk['hup4'])
+        th = np.array(relk['thetadown4'])
+    sck = max(np.abs(th).max(), 1e-300)
+    check_close(res, 'shear trace-free w.r.t. h (moving fluid)', tags,
+                np.einsum('ab...,ab...->...', hu, sig), np.zeros_like(x), 1e-12, scale=sck)
+    check_close(res, 'shear symmetric (moving fluid)', tags, sig, np.einsum('ab...->ba...', sig),
+                1e-13, scale=sck)
+    check_close(res, 'vorticity antisymmetric (moving fluid)', tags, om, -np.einsum('ab...->ba...', om),
+                1e-13, scale=sck)
     rel2 = harness.make_rel(fd, inp, clear_cache_every_nbr_calc=10**9,
                             memory_threshold_inGB=1e9)
     with common.Quiet():
